@@ -76,6 +76,11 @@ class PusTcUnit(_SpUnit):
         out.append(dict(svc=3, sub=25, apid=0x7FF, seq=0x3FFF, src=0xFFFF, ack=0, data=hx(bytes([0x2F, 17, 1, 0]))))
         out.append(dict(svc=0, sub=0, apid=0, seq=0, src=0, ack=0, data=hx(b"\x00\x00")))
         out.append(dict(svc=255, sub=255, apid=0x7FF, seq=0x3FFF, src=0xFFFF, ack=15, data=hx(b"\xff\xff\xff\xff")))
+        # telecommands whose CRC-16 is exactly 0x0000 / 0xFFFF (legal values a "was it filled in?" plausibility test would refuse)
+        for src, want in ((34324, 0x0000), (53795, 0xFFFF)):
+            r = dict(svc=17, sub=1, apid=0x42, seq=0x11, src=src, ack=9, data=hx(b"\x01\x02"))
+            assert int.from_bytes(self.ref(r)[-2:], "big") == want
+            out.append(r)
         if tier == "thorough":
             for i, (svc, sub, apid, seq, src, ack) in enumerate(diag(E8, E8, E11, E14, E16, E4, stride=5)):
                 out.append(dict(svc=svc, sub=sub, apid=apid, seq=seq, src=src, ack=ack, data=hx(payload(5 + 3 * i, 32 + i))))
@@ -176,6 +181,11 @@ class PusTmUnit(_SpUnit):
         out.append(mk(5, 1, 0x7FF, 0x3FFF, 0xFFFF, 0xFFFF, 15, 7, bytes([0x20, 17, 2, 0, 0, 0, 0]), bytes([0x20, 1, 1, 0])))
         out.append(mk(0, 0, 0, 0, 0, 0, 0, 0, bytes(7), b"\x00\x00"))
         out.append(mk(255, 255, 0x7FF, 0x3FFF, 0xFFFF, 0xFFFF, 15, 7, b"", b"\xff\xff\xff\xff"))
+        # telemetry whose CRC-16 is exactly 0x0000 / 0xFFFF
+        for mc, want in ((32831, 0x0000), (33254, 0xFFFF)):
+            r = mk(17, 2, 0x123, 0x234, mc, 0, 0, 0, STAMP7, b"")
+            assert int.from_bytes(self.ref(r)[-2:], "big") == want
+            out.append(r)
         # timestamp lengths other than 0 and 7 (a decoder that assumes the 7 octets of CDS short goes wrong only here; the longer
         # ones reach past the CRC into the neighbouring octets)
         for i, L in enumerate((1, 2, 6, 8, 12, 16)):
